@@ -43,6 +43,8 @@ pub struct SynFeatures {
     pub dist_eq_pos: usize,
     /// the stream is deliberately invalid (length symbol without a usable distance code)
     pub poisoned: bool,
+    /// blocks with identical run-length coded headers but different HLIT/HDIST split
+    pub split_shift: bool,
     pub mode: &'static str,
 }
 
@@ -123,6 +125,9 @@ impl SynFeatures {
         }
         if self.poisoned {
             v.push("syn:INVALID-length-symbol-without-distance-code");
+        }
+        if self.split_shift {
+            v.push("syn:same-header-different-hlit/hdist-split");
         }
         v
     }
@@ -1108,8 +1113,157 @@ pub fn encode_tokens(
     }
 }
 
+/// greedy run-length coding of a combined code-length sequence (no regard for the
+/// literal/distance boundary) and emission of a complete dynamic header
+fn emit_header_from_lengths(w: &mut BitW, hlit: usize, hdist: usize, seq: &[u8], cl_seed: u64) {
+    let mut items: Vec<(u8, u8)> = vec![];
+    let mut i = 0;
+    while i < seq.len() {
+        let v = seq[i];
+        let mut run = 1;
+        while i + run < seq.len() && seq[i + run] == v {
+            run += 1;
+        }
+        if v == 0 && run >= 11 {
+            let n = run.min(138);
+            items.push((18, (n - 11) as u8));
+            i += n;
+        } else if v == 0 && run >= 3 {
+            let n = run.min(10);
+            items.push((17, (n - 3) as u8));
+            i += n;
+        } else if v != 0 && i > 0 && seq[i - 1] == v && run >= 3 {
+            let n = run.min(6);
+            items.push((16, (n - 3) as u8));
+            i += n;
+        } else {
+            items.push((v, 0));
+            i += 1;
+        }
+    }
+    let mut cl_used = [false; 19];
+    for &(sy, _) in &items {
+        cl_used[sy as usize] = true;
+    }
+    let mut mix = Mix::new(cl_seed);
+    let mut spare = 0;
+    let cl_len = build_random_code(&cl_used[..], 7, 19, &mut mix, None, &mut spare);
+    let hclen = (0..19).rev().find(|&k| cl_len[CL_ORDER[k]] != 0).unwrap_or(3).max(3) + 1;
+    let cl_codes = canonical_codes(&cl_len);
+    w.put((hlit - 257) as u32, 5);
+    w.put((hdist - 1) as u32, 5);
+    w.put((hclen - 4) as u32, 4);
+    for k in 0..hclen {
+        w.put(cl_len[CL_ORDER[k]] as u32, 3);
+    }
+    for &(sy, extra) in &items {
+        w.put_code(cl_codes[sy as usize], cl_len[sy as usize]);
+        match sy {
+            16 => w.put(extra as u32, 2),
+            17 => w.put(extra as u32, 3),
+            18 => w.put(extra as u32, 7),
+            _ => {}
+        }
+    }
+}
+
+/// "split-shift" streams: consecutive dynamic blocks whose combined code-length list (and hence
+/// the whole run-length coded header) is IDENTICAL while HLIT/HDIST split it differently:
+/// block A: HLIT=H,   distance lengths [0, d1, d2, ..]  (distance symbol 0 unused)
+/// block B: HLIT=H+1, distance lengths [d1, d2, ..]     (one more unused literal/length symbol)
+/// The same bits mean different distance symbols in A and B.
+fn gen_split_shift(dna: &mut Dna) -> SynStream {
+    let mut feat = SynFeatures::default();
+    feat.mode = "split-shift";
+    let mut mix = Mix::new(dna.u64());
+    let k = dna.range(2, 5);
+    let nd = dna.range(2, 3);
+    let slack = dna.range(0, 12);
+    let h = 260 + slack;
+    let mut lit_used = [false; 288];
+    for i in 0..k {
+        lit_used[b'a' as usize + i] = true;
+    }
+    lit_used[256] = true;
+    for sy in 257..260 {
+        lit_used[sy] = true;
+    }
+    let mut spare = 0;
+    let lit_len_full = build_random_code(&lit_used[..], 15, 257, &mut mix, None, &mut spare);
+    let mut lit_len = lit_len_full.clone();
+    lit_len.truncate(h);
+    let dlens: Vec<u8> = if nd == 2 { vec![1, 1] } else { let mut v = vec![1u8, 2, 2]; let r = mix.below(3); v.swap(0, r); v };
+    let mut seq = lit_len.clone();
+    seq.push(0);
+    seq.extend_from_slice(&dlens);
+    let cl_seed = mix.next();
+    let order: Vec<bool> = match dna.below(4) {
+        0 => vec![true, false],
+        1 => vec![false, true],
+        2 => vec![true, false, true],
+        _ => vec![false, true, false, true],
+    }; // true = block A
+    let mut w = BitW::new();
+    let mut plain: Vec<u8> = Vec::new();
+    let mut all_toks = 0;
+    let mut refs = 0;
+    let nblocks = order.len();
+    for (bi, &is_a) in order.iter().enumerate() {
+        let ntok = dna.range(4, 40);
+        let mut toks = vec![];
+        for _ in 0..ntok {
+            if plain.len() >= 5 && mix.chance(45) {
+                let len = mix.range(3, 5) as u16;
+                let code = mix.below(nd); // index into dlens
+                // A: distance symbol = code + 1 (distance code+2); B: symbol = code (distance code+1)
+                let dist = if is_a { code as u32 + 2 } else { code as u32 + 1 };
+                let st = plain.len() - dist as usize;
+                for i in 0..len as usize {
+                    let b = plain[st + i];
+                    plain.push(b);
+                }
+                toks.push(Tok::Ref { len, dist, irregular: false });
+                refs += 1;
+            } else {
+                let b = b'a' + mix.below(k) as u8;
+                plain.push(b);
+                toks.push(Tok::Lit(b));
+            }
+        }
+        all_toks += toks.len();
+        w.put((bi + 1 == nblocks) as u32, 1);
+        w.put(2, 2);
+        let (hlit, hdist, ll, dl): (usize, usize, Vec<u8>, Vec<u8>) = if is_a {
+            let mut d = vec![0u8];
+            d.extend_from_slice(&dlens);
+            (h, nd + 1, lit_len.clone(), d)
+        } else {
+            let mut l = lit_len.clone();
+            l.push(0);
+            (h + 1, nd, l, dlens.clone())
+        };
+        emit_header_from_lengths(&mut w, hlit, hdist, &seq, cl_seed);
+        let mut ll2 = ll;
+        ll2.resize(288, 0);
+        let mut dl2 = dl;
+        dl2.resize(32, 0);
+        emit_tokens(&mut w, &toks, &ll2, &dl2);
+        feat.blocks += 1;
+        feat.dynamic += 1;
+    }
+    w.pad(0);
+    feat.tokens = all_toks;
+    feat.references = refs;
+    feat.split_shift = true;
+    let stream_len = w.out.len();
+    SynStream { bytes: w.out, stream_len, plain, features: feat, zlib_should_accept: true }
+}
+
 /// full G-SYN generator
 pub fn gen_syn(dna: &mut Dna, opts: &SynOpts) -> SynStream {
+    if dna.chance(3) {
+        return gen_split_shift(dna);
+    }
     let mut feat = SynFeatures::default();
     let (toks, plain) = if dna.chance(45) {
         // parse mode over a G-PLAIN text
